@@ -102,7 +102,15 @@ pub(crate) fn execute(args: &PackageArgs) -> Result<(), Error> {
         );
 
         let buildpack_destination_dir = buildpack_dir_resolver(&node.buildpack_id);
-        let _ = fs::remove_dir_all(&buildpack_destination_dir);
+        match fs::remove_dir_all(&buildpack_destination_dir) {
+            Err(error) if error.kind() != std::io::ErrorKind::NotFound => {
+                return Err(Error::CannotRemoveBuildpackDestinationDir(
+                    buildpack_destination_dir,
+                    error,
+                ));
+            }
+            _ => {}
+        }
         fs::create_dir_all(&buildpack_destination_dir).map_err(|error| {
             Error::CannotCreateBuildpackDestinationDir(buildpack_destination_dir.clone(), error)
         })?;
